@@ -284,13 +284,30 @@ class Norm:
         return t
 
     def _is_mut_local_effect(self, node):
-        """statement already represented as an effect inside the term of a `mut` local"""
+        """statement already represented as an effect inside the term of a `mut` local
+        (also an `if` whose branches consist of such statements only)"""
+        node = strip(node)
         for lid, effs in self.effects.items():
             if lid in self.mut:
                 for n, _k, _g in effs:
                     if n is node:
                         return True
+        k = node.get("k")
+        if k == "If":
+            return self._only_mut_effects(node["then"]) and ("else" not in node or self._only_mut_effects(node["else"]))
         return False
+
+    def _only_mut_effects(self, blk):
+        blk = strip(blk)
+        if blk.get("k") != "Block":
+            return self._is_mut_local_effect(blk)
+        b = blk["b"]
+        items = [st["e"] for st in b["stmts"] if st.get("k") in ("SSemi", "SExpr")]
+        if any(st.get("k") == "SLet" for st in b["stmts"]):
+            return False
+        if "expr" in b:
+            items.append(b["expr"])
+        return bool(items) and all(self._is_mut_local_effect(x) for x in items)
 
     def param_id(self, i):
         p = self.body["params"][i]
